@@ -83,6 +83,10 @@ pub enum Variant {
     /// the liquidatee holds a third collateral leg whose oracle has not been updated for an hour (the two banks
     /// of the liquidation are fresh): its maintenance health cannot be established, so nothing may be liquidated
     ThirdLegStale,
+    /// the group admin raised the e-mode leverage caps to 100x and the debt bank grants the collateral's tag a
+    /// maintenance weight of 0.98 (its own is lower): with a liability weight of 1.0 every dollar seized takes 0.98 of
+    /// weighted collateral away for 0.95 of debt relief, so no liquidation can improve health - none may commit
+    EmodeHighMaint,
 }
 
 fn emode_entry(tag: u16, i: f64, m: f64) -> marginfi_type_crate::types::EmodeEntry {
@@ -125,6 +129,9 @@ fn pyth_spec_ema(price_e8: i64, conf_pp: u64, ema_pct: i64) -> OracleSpec {
 fn set_price(s: &mut Store, w: &World, b: usize, price_e8: i64, conf_pp: u64) {
     world::set_oracle(s, &w.banks[b].oracle.unwrap(), &pyth_spec(price_e8, conf_pp));
 }
+
+static DRAINED_OK: std::sync::atomic::AtomicU64 = std::sync::atomic::AtomicU64::new(0);
+static DRAINED_REFUSED: std::sync::atomic::AtomicU64 = std::sync::atomic::AtomicU64::new(0);
 
 pub struct Built {
     pub w: World,
@@ -254,6 +261,19 @@ pub fn build(c: &Cfg, tag: &str) -> Option<Built> {
             let r = process_tx(&mut s, &Tx::one(ix::configure_bank_emode(g, em, w.banks[b].key, tagv, ents), &[em]));
             if !r.ok() {
                 return { if std::env::var("VERIF_C05_DEBUG").is_ok() { eprintln!("c05 build failed at site 15 (bank {b}: {}): {:?}", crate::svm::err_name(r.code()), c); } None };
+            }
+        }
+    }
+    if c.variant == Variant::EmodeHighMaint {
+        let (g, em) = (w.group, w.roles.emode);
+        let hundred: marginfi_type_crate::types::WrappedI80F48 = I80F48::from_num(100).into();
+        let ninety: marginfi_type_crate::types::WrappedI80F48 = I80F48::from_num(90).into();
+        if !process_tx(&mut s, &Tx::one(ix::group_configure(g, w.roles.admin, &w.roles, Some(ninety), Some(hundred)), &[w.roles.admin])).ok() {
+            return None;
+        }
+        for (b, tagv, ents) in [(0usize, 7u16, emode_entries(&[])), (1, 0, emode_entries(&[emode_entry(7, 0.5, 0.98)]))] {
+            if !process_tx(&mut s, &Tx::one(ix::configure_bank_emode(g, em, w.banks[b].key, tagv, ents), &[em])).ok() {
+                return { if std::env::var("VERIF_C05_DEBUG").is_ok() { eprintln!("c05 build failed at the high-maint e-mode table: {:?}", c); } None };
             }
         }
     }
@@ -550,6 +570,24 @@ fn run_cfg(c: &Cfg, idx: usize) -> R {
             }
         }
     }
+    // the same liquidations against a debt bank whose liquidity vault is (almost) empty - fully lent out: the
+    // insurance share still goes to the insurance vault in whole tokens, or the liquidation fails as a whole
+    if boundary >= 1 {
+        let lv = crate::ix::liquidity_vault(&w.banks[1].key).0;
+        for left in [0u64, 1, 1_000] {
+            let mut b2 = Built { w: b.w.clone(), s: b.s.clone() };
+            world::set_token_amount(&mut b2.s, &lv, left);
+            for amt in [boundary, (boundary / 2).max(1)] {
+                let (ok, _) = judge(c, &b2, amt, &mut found);
+                execs += 1;
+                if ok {
+                    DRAINED_OK.fetch_add(1, std::sync::atomic::Ordering::Relaxed);
+                } else {
+                    DRAINED_REFUSED.fetch_add(1, std::sync::atomic::Ordering::Relaxed);
+                }
+            }
+        }
+    }
     let class = format!("{:?}:{:?}:{}{swap_class}", c.level, c.liquidator, if boundary == 0 { format!("never:{}", crate::svm::err_name(code1)) } else if boundary == coll { "whole_collateral".into() } else { format!("bounded:{}", crate::svm::err_name(first_reject_code)) });
     R { class, found, execs }
 }
@@ -579,6 +617,13 @@ pub fn configs(tier: Tier) -> Vec<Cfg> {
                 for &(aw, lw) in &[(0.9, 1.1), (0.6, 1.0)] {
                     v.push(Cfg { pair, level, liquidator: Liquidator::LargeDepositInDebtBank, asset_w_maint: aw, liab_w_maint: lw, asset_conf_pp: 0, variant });
                 }
+            }
+        }
+    }
+    for &pair in pairs {
+        for level in [Level::SlightlyNegative, Level::Negative, Level::DeeplyNegative] {
+            for liquidator in [Liquidator::LargeDepositInDebtBank, Liquidator::OnlyOtherCollateral] {
+                v.push(Cfg { pair, level, liquidator, asset_w_maint: 0.6, liab_w_maint: 1.0, asset_conf_pp: 0, variant: Variant::EmodeHighMaint });
             }
         }
     }
@@ -634,6 +679,8 @@ pub fn run(tier: Tier) -> Outcome {
     if liquidated == 0 {
         o.machinery.push("vacuity guard: no configuration was liquidatable".into());
     }
+    classes.insert("drained_debt_vault:liquidation_committed".into(), DRAINED_OK.load(std::sync::atomic::Ordering::Relaxed));
+    classes.insert("drained_debt_vault:liquidation_refused".into(), DRAINED_REFUSED.load(std::sync::atomic::Ordering::Relaxed));
     o.coverage = json!({
         "evaluations": execs,
         "distinct_nontrivial": liquidated,
